@@ -24,7 +24,9 @@ func GlobExpand(paths []string, recursive bool) <-chan string {
 			} else {
 				expanded, err := filepath.Glob(p)
 				if err != nil {
+					// Not a valid pattern (eg. a file named "a["): pass it on literally, so it is opened or reported as a read error
 					logger.Printf("Path error: %v", err)
+					c <- p
 				} else if len(expanded) > 0 {
 					for _, item := range expanded {
 						c <- item
